@@ -1,4 +1,5 @@
-//! Arm-by-arm conformance of Head / Tail / Skip against AdapterAlgo.tla:
+//! Arm-by-arm conformance of Head / Tail / Skip / Filter / FilterMap against AdapterAlgo.tla and of the sort
+//! family against SortAlgo.tla:
 //! each case `{kind, s, p, d, new}` builds the real adapter over a scripted
 //! input stream (initial values `s`, limit/count `p`), feeds it the single
 //! input diff `d` (or the limit change `p -> new`) and records what it emits.
@@ -84,6 +85,21 @@ fn run_case(c: &Value, batched: bool) -> (Value, Value, &'static str) {
                 "filter_map" => {
                     let (init, mut st) =
                         obs.filter_map(|e: Elem| if e.v.rem_euclid(2) == 1 { Some(Elem::new(e.v + 100)) } else { None });
+                    let (items, end) = poll_group(&mut st, 0, &mut cx, $tob);
+                    (seq_json(init.iter()), Value::Array(items), end)
+                }
+                "sort" => {
+                    let (init, mut st) = obs.sort();
+                    let (items, end) = poll_group(&mut st, 0, &mut cx, $tob);
+                    (seq_json(init.iter()), Value::Array(items), end)
+                }
+                "sort_by" => {
+                    let (init, mut st) = obs.sort_by(|a: &Elem, b: &Elem| (b.v.rem_euclid(4)).cmp(&a.v.rem_euclid(4)));
+                    let (items, end) = poll_group(&mut st, 0, &mut cx, $tob);
+                    (seq_json(init.iter()), Value::Array(items), end)
+                }
+                "sort_by_key" => {
+                    let (init, mut st) = obs.sort_by_key(|e: &Elem| e.v.rem_euclid(3));
                     let (items, end) = poll_group(&mut st, 0, &mut cx, $tob);
                     (seq_json(init.iter()), Value::Array(items), end)
                 }
